@@ -28,7 +28,7 @@ ASSUME = ["hs, tz, s, d > 0", "normalisation, the support search (x_max shrinkin
 
 
 def run(prog, rep):
-    rep.explanation = EXPL
+    rep.explanation = EXPL + ' C16.reject: conditional_sample draws (x, y) candidates of equal size in one iteration, accepts y < pdf(x), keeps x[accept], with ordinates on [0, f_max] and f_max = c * max pdf over a linspace grid on exactly the abscissa interval, c >= 1.'
     rep.assumptions = ASSUME
     rep.part(closed, prog, rep)
     rep.part(wiring, prog, rep)
